@@ -72,6 +72,12 @@ def workload():
     cases.append(('prefix-family', 'html_token', dict(a_text=fam_a, b_text=fam_b, include='all')))
     cases.append(('prefix-family-rev', 'html_token', dict(a_text=fam_b, b_text=fam_a, include='all')))
     cases.append(('prefix-family-pre', 'html_token', dict(a_text='<p>intro</p><pre>line one\nline two</pre><p>end</p>', b_text='<p>intro now</p><pre>line 1\nline two</pre><p>the end</p>', include='all')))
+    # blank documents (replaced by the placeholder page): the placeholder must be the same in every call, whatever views earlier
+    # calls with a blank side asked for
+    page = '<html><head><title>p</title></head><body><p>some words here</p></body></html>'
+    for i, (x, y, inc) in enumerate([('', page, 'all'), (page, '', 'all'), ('', page, 'deletions'), ('  ', page, 'combined'), (page, '\n', 'insertions'), ('', '', 'all'),
+                                     ('', page, 'insertions'), (page, '', 'deletions'), ('', page, 'all')]):
+        cases.append(('blank-%d' % i, 'html_token', dict(a_text=x, b_text=y, include=inc)))
     cases.append(('chain-back', 'html_token', dict(a_text=versions[2], b_text=versions[0], include='all')))
     for i, (a, b) in enumerate(link_pairs):
         hdr = headers[i % 3]
